@@ -10,6 +10,12 @@ def check(c):
     n = 8 if thorough else 2
     shards = [["-mode", "both", "-configs", "14", "-requests", "400" if thorough else "250"] for _ in range(n)]
     tot = servelib.run_serve(c, "C16", shards, "preflight response discloses more than was asked (debug off)")
+    # "debug off" also means: off according to the calls made. SetDebug(false) racing with other calls (ConcMC.tla scenarios that
+    # contain it), under every schedule: afterwards failing preflights must be the bare ones of a debug-off state
+    import conclib
+    c.instrument_mutexes()
+    gated = c.build_driver(tags=["verifgates"], name="driver_gates")
+    conclib.run_conc(c, gated, width=2, need="setdebug:false")
     if tot["a"] == 0 or tot["b"] == 0:
         raise Infra("vacuous C16 run: %r" % tot)
     c.cov["distinct_nontrivial"] = tot["a"] + tot["b"]
